@@ -514,17 +514,18 @@ def _act_json(act):
     return [act['label'], act['kind'], act['arg']]
 
 
-def task_file_nav(rel, tier, part=0, nparts=1, skip=None, maxseq=None):
+def task_file_nav(rel, tier, part=0, nparts=1, skip=None, maxseq=None, derive=None):
     C06 = _c06()
     from harness import c06_common as c6
     from harness import C05 as c05
     ld = C06._load()
-    P = C06.prepare(rel)
+    P = C06.prepare(rel, derive)
     raw, sets, fullk, tables, oracle = P['raw'], P['sets'], P['fullk'], P['tables'], P['oracle']
     n = len(fullk)
     skip = list(skip or [])
+    shape = ('/derived=' + derive if derive else '') + ('/skip=' + '+'.join(skip) if skip else '')
     tnames = [t for t in P['tablenames'] if t not in skip]
-    name = 'file/%s%s[%d/%d]' % (rel, '/skip=' + '+'.join(skip) if skip else '', part + 1, nparts)
+    name = 'file/%s%s[%d/%d]' % (rel, shape, part + 1, nparts)
     SF = C06.symbolic_file(P, headers=False)
     lines, cons, symlines = SF['lines'], SF['cons'], SF['symlines']
     allseq = file_sequences(P, tier)
@@ -538,7 +539,7 @@ def task_file_nav(rel, tier, part=0, nparts=1, skip=None, maxseq=None):
     budget = c6.budget(len(raw), len(sets))
     failures, samples, distinct = [], [], set()
     counters = dict(sequences=0, actions=0, fresh=0, reached=0, unattributed=0, cells=0)
-    base_key = 'file/%s%s' % (rel, '/skip=' + '+'.join(skip) if skip else '')
+    base_key = 'file/%s%s' % (rel, shape)
 
     def open_reader():
         f = c6.LineFile(lines)
@@ -560,7 +561,7 @@ def task_file_nav(rel, tier, part=0, nparts=1, skip=None, maxseq=None):
                 c.stats['ob_sat'] += 1
             nfail[0] += 1
             failures.append(dict(key=key, what='%s: %s' % (rel, what),
-                                 replay=dict(kind='file', file=os.path.join('tests', 'listing', rel), skip_tables=skip,
+                                 replay=dict(kind='file', file=os.path.join('tests', 'listing', rel), skip_tables=skip, derive=derive,
                                              substitutions=SF['subs_for'](model, list(symlines)), clause=clause,
                                              actions=[_act_json(a) for a in log])))
             return 'sat'
@@ -661,7 +662,7 @@ def task_file_nav(rel, tier, part=0, nparts=1, skip=None, maxseq=None):
                 log.append(act)
                 if not act.get('positioning'): done.append(act['label'])
                 seqlab = '>'.join(done) if done else 'index'
-                what0 = 'after %s from index %s' % (' > '.join('%s%s' % (a['label'], '' if a['arg'] is None or a['kind'] == 'history' else '=%r' % (a['arg'],)) for a in acts[:len(done) + (len(acts) - len(sq['acts']))]), kexp)
+                what0 = 'after %s (start index %d)' % (' > '.join('%s%s' % (a['label'], '' if a['arg'] is None or a['kind'] == 'history' else '=%r' % (a['arg'],)) for a in acts[:acts.index(act) + 1]), sq['start'])
                 want, moved_want = expected_after(kexp, act, n, times, steps)
                 f.arm(budget)
                 err = None
@@ -727,7 +728,28 @@ def file_tasks(tier):
         nparts = 1 if tier == 'quick' else max(1, min(4, maxseq // 300))
         for part in range(nparts):
             tasks.append((task_file_nav, dict(rel=rel, tier=tier, part=part, nparts=nparts, maxseq=maxseq)))
+        reln = rel.replace(os.sep, '/')
+        # shapes: a reader opened with skip_tables (both readers), and derived listings whose later result sets print
+        # tables the first one does not have (the class of the TOUGH2/11 defect)
+        for sk in FILE_SKIP.get(reln, ()) if tier == 'quick' else FILE_SKIP_THOROUGH.get(reln, ()):
+            tasks.append((task_file_nav, dict(rel=rel, tier=tier, maxseq=max(24, maxseq // 3), skip=list(sk))))
+        for dv in FILE_DERIVED.get(reln, ()) if tier == 'quick' else FILE_DERIVED_THOROUGH.get(reln, ()):
+            tasks.append((task_file_nav, dict(rel=rel, tier=tier, maxseq=max(24, maxseq // 2), derive=dv)))
     return tasks, files
+
+
+FILE_SKIP = {'TOUGH2/8/OUTFILE': (('connection',),), 'AUTOUGH2/3/case3.listing': (('element',),), 'TOUGHplus/4/t3T_out.dat': (('element1', 'primary'),)}
+FILE_SKIP_THOROUGH = dict(FILE_SKIP)
+FILE_SKIP_THOROUGH.update({'TOUGH2/8/OUTFILE': (('connection',), ('element',), ('primary', 'generation')),
+                           'TOUGH2/11/case11.listing': (('connection',), ('generation',)),
+                           'AUTOUGH2/4/case4.listing': (('connection',), ('generation',)),
+                           'TOUGH2-MP/6/OUTPUT_DATA': (('element',), ('connection',)),
+                           'TOUGHREACT/1/case1.out': (('connection',),),
+                           'TOUGHplus/1/case1.dat': (('element1',), ('connection', 'element2'))})
+FILE_DERIVED = {'TOUGH2/8/OUTFILE': ('final-primary', 'late-primary')}
+FILE_DERIVED_THOROUGH = {'TOUGH2/8/OUTFILE': ('final-primary', 'late-primary', 'final-connection+primary', 'late-connection'),
+                         'TOUGH2/9/OUTFILE': ('final-primary', 'late-primary', 'final-connection+primary'),
+                         'TOUGH2/4/case4.out': ('final-primary', 'final-connection+primary')}
 
 
 def run(tier, seed, rep):
@@ -753,7 +775,24 @@ def run(tier, seed, rep):
     if tier == 'thorough':
         for triple in itertools.product(ACTIONS, repeat=3):
             tasks.append((task_sequence, dict(actions=triple, n=2)))
-    rep.add_results(report.run_tasks(tasks))
+    ftasks, ffiles = file_tasks(tier)
+    if os.environ.get('C07_ONLY') == 'file': tasks = []
+    if os.environ.get('C07_ONLY') == 'kernel': ftasks = []
+    results = report.run_tasks(ftasks + tasks)         # (the file tasks are the long ones: first in the queue)
+    rep.add_results(results)
+    nseq = nact = nfresh = ncell = nsym = 0
+    for r in results:
+        ex = r.get('extra', {})
+        if r.get('error') or not ex.get('file_tier'): continue
+        if ex.get('vacuous'): rep.harness_error('%s: no obligation was reached' % r['name'])
+        if r.get('stats', {}).get('paths', 0) > 1: rep.outside.append('%s: %d paths (a symbolic sign cell forked the reader)' % (r['name'], r['stats']['paths']))
+        nseq += ex.get('sequences', 0); nact += ex.get('actions', 0); nfresh += ex.get('fresh_readers', 0)
+        ncell += ex.get('cells_compared', 0); nsym += ex.get('symbolic_lines', 0)
+    rep.extra['file_tier'] = dict(files=len(ffiles), tasks=len(ftasks), sequences=nseq, actions=nact, fresh_readers=nfresh,
+                                  table_cells_compared=ncell, symbolic_lines=nsym)
+    rep.bounds += [
+        'KERNEL TIER (stub reader):',
+    ]
     rep.bounds += ['n = %s result sets with symbolic strictly increasing times (reals) and steps (integers), first >= 0' % (list(ns),),
                    'current position k0 symbolic in [0, n); index argument symbolic in [-n, n); time argument any real; step argument any integer',
                    'one action from an arbitrary position (inductive step: the post-state is again "positioned directly at k"), actions %s' % (list(ACTIONS),),
@@ -763,20 +802,49 @@ def run(tier, seed, rep):
     rep.bounds += ["action 'badhist' = the real history() with a selection in which EVERY specification is invalid (%s): block / connection names asked for are "
                    'symbolic 5-character names constrained only to be absent from the tables (element table: two symbolic row names, connection table: one symbolic pair); '
                    'obligations: returns None, index/time/step unchanged, no seek, no read; also as a step of every 2-/3-action sequence' % (list(BADHIST_VARIANTS),)]
-    rep.outside += ['table contents: read_tables itself (whole-file parsing) is not executed; see assumption',
+    rep.bounds += [
+        'FILE-LEVEL TIER (real reader on a line file, harness/C06 machinery): %d shipped listing files (%s), %d navigation sequences, %d actions, '
+        '%d fresh reference readers, %d table cells compared' % (len(ffiles), 'the smaller files of every flavour incl. TOUGH2/11' if tier == 'quick' else 'all',
+                                                                   nseq, nact, nfresh, ncell),
+        'file tier, symbolic values: in EVERY result set the lines of the first / interior / last row of every table (and of the first / last row of every SHORT '
+        'table) carry a symbolic digit for every digit and a symbolic blank-or-minus cell for every sign position (as C06; layout lines and letterless-exponent '
+        'numbers: digits only); %d symbolic lines; result-set headers (times, steps) as shipped' % nsym,
+        'file tier, actions: first, last, next, prev, index = i (0, 1, middle, last; -1, -n, an interior negative), time = t (exact printed times of the first / '
+        'middle / last result set; a quarter and three quarters between the first two and the last two; the exact midpoint where float arithmetic makes it a true '
+        'tie; before the first; after the last), step = s (same classes), history(sel) with a valid single-tuple selection and with a mixed list over two tables',
+        'file tier, sequences: every single action from %s starting indices; %s; for result sets that print a table the first one does not have (TOUGH2/11): 12 '
+        'orders of reaching them (from the set before by index / next / last, from the first, away and back, by negative index, from the set after); the '
+        'number of sequences per file is capped by file size (evenly thinned)' % (
+            'two dealt (next / prev: all)' if tier == 'quick' else 'all',
+            'one sequence for every ordered pair of the 9 action kinds, arguments and starting index dealt' if tier == 'quick' else
+            'one sequence for every ordered pair of the ~20 action classes and every ordered triple of the 9 action kinds, arguments and starting index dealt'),
+        'file tier, oracle after EVERY action: reported index == the index the property prescribes (exact-arithmetic nearest / first-on-tie for time and step), '
+        'next / prev return whether they moved, time / step and every cell of every table == those of a SECOND reader opened fresh on the same lines and '
+        'positioned with index = k (symbolic cells: z3; one fresh reader per k), whose chosen rows in turn == the independent evaluation of the cells printed '
+        'for result set k; no exception; each action within the C06 readline budget',
+    ]
+    rep.outside += ['(kernel tier) table contents: read_tables itself (whole-file parsing) is not executed there; it is executed in the file-level tier',
                     'history() with at least one VALID specification: after the prologue it scans the file (skip_to_table, readline, read_table_line), which needs a '
                     'real listing; only the prologue up to the early exit runs on the stub object',
                     'index arguments outside [-n, n) (IndexError from the list before any state changes)',
                     'NaN times; float rounding of |times - t| (exact reals here)',
-                    'listings with short (AUTOUGH2 SHORT) output where _pos differs from _fullpos']
-    rep.assumptions += ['STATED, NOT DECIDED: read_tables entered at _fullpos[k] produces tables (and _time/_step) that depend only on k - no stale rows survive from the previous position',
+                    '(kernel tier) listings with short (AUTOUGH2 SHORT) output where _pos differs from _fullpos (covered by the file tier: AUTOUGH2/3, /5, /6, /7)',
+                    '(file tier) the reader keeps its history across sequences (it is reopened only after a failure), so every sequence runs after a long prefix '
+                    'of earlier, verified ones; rows other than the chosen ones, names, headers and times are the shipped text; truncated copies of files; '
+                    'sequences of 4 actions; rewind(); skip_tables other than the variants listed; toughreact_tecplot files']
+    rep.assumptions += ['(kernel tier) stated there, DECIDED in the file-level tier for the shipped files: read_tables entered at _fullpos[k] produces tables (and _time/_step) that depend only on k - no stale rows survive from the previous position',
+                        '(file tier) line file instead of a binary file (positions = line numbers); float() of digit / sign cells as in C05 / C06; which line prints which row: C06 pre-run (text scan cross-checked against stepping)',
                         '_fullpos are distinct offsets; fulltimes / fullsteps strictly increasing (as setup_pos builds them from a listing whose times advance)',
                         'stub _file records seek(); stub read_tables records the offset it is entered at and sets _time/_step to the header values of that offset']
     rep.functions.update(['t2listing.py:t2listing.get_index', 't2listing.py:t2listing.set_index', 't2listing.py:t2listing.set_time',
                           't2listing.py:t2listing.set_step', 't2listing.py:t2listing.first', 't2listing.py:t2listing.last',
                           't2listing.py:t2listing.next', 't2listing.py:t2listing.prev', 't2listing.py:t2listing.get_time',
                           't2listing.py:t2listing.get_step', 't2listing.py:t2listing.get_num_fulltimes', 't2listing.py:t2listing.history',
-                          't2listing.py:ordered_selection', 't2listing.py:tablename_from_specification', 't2listing.py:listingtable.__init__'])
+                          't2listing.py:ordered_selection', 't2listing.py:tablename_from_specification', 't2listing.py:listingtable.__init__',
+                          't2listing.py:t2listing.read_tables_TOUGH2', 't2listing.py:t2listing.read_tables_AUTOUGH2', 't2listing.py:t2listing.read_tables_TOUGHplus',
+                          't2listing.py:t2listing.read_table_TOUGH2', 't2listing.py:t2listing.read_table_AUTOUGH2', 't2listing.py:t2listing.read_header_TOUGH2',
+                          't2listing.py:t2listing.read_header_AUTOUGH2', 't2listing.py:t2listing.next_table_TOUGH2', 't2listing.py:t2listing.next_table_AUTOUGH2',
+                          't2listing.py:t2listing.next_table_TOUGHplus', 't2listing.py:t2listing.skip_to_table_TOUGH2', 't2listing.py:t2listing.skip_table_TOUGH2'])
     rep.process_failures()
     return rep.finish(rule='one obligation per (action, n, path, label): path condition AND NOT(obligation) must be unsat; '
                       'distinct = non-constant formulas deduplicated by (label, z3 AST hash) per task')
